@@ -95,11 +95,14 @@ pub struct CliOpts {
     pub stdin_unreadable: bool,
     /// the complete argument list instead of `<file> [-i]`; the element "{FILE}" stands for the source file
     pub argv: Option<Vec<String>>,
+    /// deliver the standard input in pieces of this many bytes with this many milliseconds between them (the
+    /// content is the same; a reader that takes "what is there right now" for a line shows a different output)
+    pub stdin_pieces: Option<(usize, u64)>,
 }
 
 impl Default for CliOpts {
     fn default() -> Self {
-        CliOpts { interpreted: false, order: None, timeout_ms: 4000, cap: 1 << 20, stdin_unreadable: false, argv: None }
+        CliOpts { interpreted: false, order: None, timeout_ms: 4000, cap: 1 << 20, stdin_unreadable: false, argv: None, stdin_pieces: None }
     }
 }
 
@@ -183,7 +186,18 @@ fn run_cli_once(src: &[u8], stdin: &[u8], o: &CliOpts) -> CliOut {
         None
     } else {
         let mut si = child.stdin.take().unwrap();
-        if stdin.len() <= 4096 {
+        if let Some((n, ms)) = o.stdin_pieces {
+            let data = stdin.to_vec();
+            Some(std::thread::spawn(move || {
+                for piece in data.chunks(n.max(1)) {
+                    if si.write_all(piece).is_err() {
+                        break;
+                    }
+                    let _ = si.flush();
+                    std::thread::sleep(Duration::from_millis(ms));
+                }
+            }))
+        } else if stdin.len() <= 4096 {
             let _ = si.write_all(stdin);
             None
         } else {
